@@ -225,6 +225,13 @@ func domURL(who, dom string) string {
 	if dom == "" {
 		return "http://localhost:3333"
 	}
+	// same registered domain, different URL shapes: two labels with port and path, three labels, four labels
+	switch who {
+	case "p2", "p5":
+		return "https://" + dom + ".com:8080/api"
+	case "p3":
+		return "http://node." + who + "." + dom + ".com"
+	}
 	return "https://" + who + "." + dom + ".com"
 }
 
